@@ -20,7 +20,7 @@ def run(ctx):
     lib_variant.traversal_push(ctx, P, tus=["convert"])
     funcs = {"tsk_newick_converter_run"}
     seen = lib_guards.analyse(ctx, P, funcs=funcs)
-    lib_guards.presence(ctx, seen, funcs=funcs)
+    lib_guards.presence(ctx, seen, funcs=funcs, P=P)
     lib_module.options_plumbing(ctx, P, funcs={"Tree_get_newick"})
     lib_module.parsed_used(ctx, P, only=ms)
     lib_err.discipline(ctx, P, ["convert"])
